@@ -44,6 +44,13 @@ def leaves(T):
         ("LiteralType:none", lambda: T.LiteralType([None])),
         ("LiteralType:float", lambda: T.LiteralType([1.5])),
         ("LiteralType:two", lambda: T.LiteralType(["a", 2])),
+        # boundary shapes of the literal list: empty, a repeated value, values that are different literals but equal
+        # for Python (1 == True == 1.0, 0 == False)
+        ("LiteralType:empty", lambda: T.LiteralType([])),
+        ("LiteralType:repeated", lambda: T.LiteralType(["a", "a"])),
+        ("LiteralType:int-bool", lambda: T.LiteralType([1, True])),
+        ("LiteralType:bool-int-float", lambda: T.LiteralType([False, 0, 0.0])),
+        ("LiteralType:none-twice", lambda: T.LiteralType([None, None, "x"])),
         ("EnumType:0", lambda: T.EnumType(frozenset())),
         ("EnumType:2", lambda: T.EnumType(frozenset(["x", "y"]), "{x, y}")),
         ("BoundaryType:closed", lambda: B("int", 0, 10, True, True)),
